@@ -5,6 +5,7 @@ import (
 	"context"
 	"fmt"
 	"net"
+	"runtime"
 	"strings"
 	"sync"
 	"testing"
@@ -273,6 +274,17 @@ func runC11(t *testing.T, c *c11Case, known func(string) bool) (out c11Outcome) 
 			case d = <-dc:
 			case <-time.After(150 * time.Second):
 				fail("Client.Dial still blocked after 150s although the relay is healthy and the server is accepting")
+				// where is everybody? (for the replay file; this alarm does
+				// not reproduce from its case alone)
+				buf := make([]byte, 4<<20)
+				n := runtime.Stack(buf, true)
+				cnt := 0
+				for _, g := range strings.Split(string(buf[:n]), "\n\n") {
+					if (strings.Contains(g, "mailbox.(*Client") || strings.Contains(g, "mailbox.RefreshClientConn") || strings.Contains(g, "mailbox.NewClientConn")) && cnt < 12 {
+						cnt++
+						logf("stack: %s", strings.ReplaceAll(g, "\n", " | "))
+					}
+				}
 				stuck = true
 				return false
 			}
